@@ -130,6 +130,10 @@ func Syntactic(p *Program, name, prop string) []*OblResult {
 		return synNondeterminism(p, prop)
 	case "loopvar-escape":
 		return synLoopVarEscape(p, prop)
+	case "table-closures-capture-values":
+		return synTableClosures(p, prop)
+	case "immutable-fields":
+		return synImmutableFields(p, prop)
 	case "jp-flag-writers":
 		return synFieldWriters(p, prop, "jp-flag-writers", "vm.EVM", "IsExecuteJP", map[string]bool{"(*vm.EVM).CloseAspectCall": true, "(*vm.EVM).AspectCall": true, "vm.NewEVM": true},
 			"the join-point switch EVM.IsExecuteJP is assigned only by CloseAspectCall, AspectCall and NewEVM: nothing else (Reset, SetBlockContext, the interpreter, a frame function) can switch join points on or off behind the host's back")
@@ -794,4 +798,219 @@ func synLoopVarEscape(p *Program, prop string) []*OblResult {
 		}
 	}
 	return summarize(prop, "loopvar-escape", "no function of tracers/native hands out, inside a loop, the address of a variable that the loop reassigns (every emitted frame points into its own copy of the input)", sites, n)
+}
+
+// synImmutableFields: every field declared "immutable" in the contract files (kept by a modifies-* havoc) is assigned
+// only through an address derived from an object the assigning function has just allocated itself (&T{...} or new(T)),
+// i.e. while the object is under construction; and no whole-struct store overwrites an existing object of such a type.
+func synImmutableFields(p *Program, prop string) []*OblResult {
+	var out []*OblResult
+	byType := map[string]map[string]bool{}
+	for _, d := range p.Contr.Immutable {
+		i := strings.LastIndex(d, ".")
+		if i < 0 {
+			continue
+		}
+		t, f := d[:i], d[i+1:]
+		if byType[t] == nil {
+			byType[t] = map[string]bool{}
+		}
+		byType[t][f] = true
+	}
+	var decls []string
+	for t, fs := range byType {
+		for f := range fs {
+			decls = append(decls, t+"."+f)
+		}
+	}
+	sort.Strings(decls)
+	perField := map[string][]string{}
+	writes := map[string]int{}
+	n := 0
+	rootAlloc := func(v ssa.Value) bool {
+		for {
+			switch x := v.(type) {
+			case *ssa.FieldAddr:
+				v = x.X
+			case *ssa.Alloc:
+				return true
+			default:
+				return false
+			}
+		}
+	}
+	for _, fn := range p.moduleFuncs() {
+		if isTestFunc(p, fn) {
+			continue
+		}
+		n++
+		for _, b := range fn.Blocks {
+			for _, ins := range b.Instrs {
+				st, ok := ins.(*ssa.Store)
+				if !ok {
+					continue
+				}
+				// field store
+				if fa, ok := st.Addr.(*ssa.FieldAddr); ok {
+					// the path of nested FieldAddrs: check every struct level
+					cur := fa
+					for cur != nil {
+						pt, ok := cur.X.Type().Underlying().(*types.Pointer)
+						if !ok {
+							break
+						}
+						stt, ok := pt.Elem().Underlying().(*types.Struct)
+						if !ok {
+							break
+						}
+						tn := typeStr(pt.Elem())
+						fname := stt.Field(cur.Field).Name()
+						if byType[tn][fname] {
+							key := tn + "." + fname
+							writes[key]++
+							if !rootAlloc(cur.X) {
+								perField[key] = append(perField[key], p.pos(st.Pos())+"\t"+fnName(fn)+" assigns "+key+" of an object it did not allocate")
+							}
+						}
+						next, _ := cur.X.(*ssa.FieldAddr)
+						cur = next
+					}
+					continue
+				}
+				// whole-struct store through a pointer to a type with immutable fields
+				if pt, ok := st.Addr.Type().Underlying().(*types.Pointer); ok {
+					tn := typeStr(pt.Elem())
+					if len(byType[tn]) > 0 && !rootAlloc(st.Addr) {
+						for f := range byType[tn] {
+							key := tn + "." + f
+							perField[key] = append(perField[key], p.pos(st.Pos())+"\t"+fnName(fn)+" overwrites a whole "+tn)
+						}
+					}
+				}
+			}
+		}
+	}
+	for _, key := range decls {
+		sites := perField[key]
+		if writes[key] == 0 {
+			// never assigned field by field: it is set by composite literals only, or not at all; both are fine, but a
+			// renamed field must not go unnoticed
+			i := strings.LastIndex(key, ".")
+			if p.resolveField(key[:i], key[i+1:]) == nil {
+				sites = append(sites, "\tno such field "+key+" (renamed or removed?)")
+			}
+		}
+		out = append(out, summarize(prop, "immutable-fields/"+key, fmt.Sprintf("%s is assigned only while its object is under construction in the assigning function (%d field assignments found)", key, writes[key]), sites, n)...)
+	}
+	if len(decls) == 0 {
+		out = append(out, summarize(prop, "immutable-fields", "at least one immutable field is declared", []string{"\tno //@ immutable declaration found"}, n)...)
+	}
+	return out
+}
+
+// resolveField: the field named f of the struct type named t ("pkg.Type"), or nil.
+func (p *Program) resolveField(t, f string) *types.Var {
+	tt := p.resolveType(t, nil)
+	if tt == nil {
+		return nil
+	}
+	st, ok := tt.Underlying().(*types.Struct)
+	if !ok {
+		return nil
+	}
+	for i := 0; i < st.NumFields(); i++ {
+		if st.Field(i).Name() == f {
+			return st.Field(i)
+		}
+	}
+	return nil
+}
+
+// synTableClosures: the closures that can sit in the shared, package-level instruction tables (anonymous functions
+// with the signature of executionFunc, gasFunc or memorySizeFunc) are called by every EVM instance of the process,
+// possibly concurrently. Their captured variables are therefore shared state: each captured variable must hold a plain
+// value or a function value (no pointer, slice, map, interface or channel - nothing through which shared memory could be
+// reached) and the closure must only read it.
+func synTableClosures(p *Program, prop string) []*OblResult {
+	var sigs []*types.Signature
+	for _, tn := range []string{"vm.executionFunc", "vm.gasFunc", "vm.memorySizeFunc"} {
+		if t := p.resolveType(tn, nil); t != nil {
+			if sg, ok := t.Underlying().(*types.Signature); ok {
+				sigs = append(sigs, sg)
+			}
+		}
+	}
+	var sites []string
+	n, closures := 0, 0
+	var plain func(t types.Type, depth int) bool
+	plain = func(t types.Type, depth int) bool {
+		if depth > 6 {
+			return false
+		}
+		switch u := t.Underlying().(type) {
+		case *types.Basic:
+			return u.Kind() != types.UnsafePointer
+		case *types.Signature:
+			// a function value is immutable; if it is itself a closure of this module it is subject to this same rule
+			return true
+		case *types.Array:
+			return plain(u.Elem(), depth+1)
+		case *types.Struct:
+			for i := 0; i < u.NumFields(); i++ {
+				if !plain(u.Field(i).Type(), depth+1) {
+					return false
+				}
+			}
+			return true
+		}
+		return false
+	}
+	for _, fn := range p.moduleFuncs() {
+		if isTestFunc(p, fn) {
+			continue
+		}
+		n++
+		if fn.Parent() == nil || len(fn.FreeVars) == 0 {
+			continue
+		}
+		match := false
+		for _, sg := range sigs {
+			if types.Identical(fn.Signature, sg) {
+				match = true
+			}
+		}
+		if !match {
+			continue
+		}
+		closures++
+		for _, fv := range fn.FreeVars {
+			vt := fv.Type()
+			if pt, ok := vt.Underlying().(*types.Pointer); ok {
+				vt = pt.Elem() // go/ssa captures by reference: the free variable is the address of the captured variable
+			}
+			if !plain(vt, 0) {
+				sites = append(sites, p.pos(fn.Pos())+"\t"+fnName(fn)+" captures "+fv.Name()+" of type "+typeStr(vt)+": shared memory reachable from a table closure")
+				continue
+			}
+			if refs := fv.Referrers(); refs != nil {
+				for _, r := range *refs {
+					switch r := r.(type) {
+					case *ssa.UnOp, *ssa.DebugRef:
+					case *ssa.Store:
+						if r.Addr == ssa.Value(fv) {
+							sites = append(sites, p.pos(r.Pos())+"\t"+fnName(fn)+" assigns its captured variable "+fv.Name()+" (shared by every EVM using the table)")
+						} else {
+							sites = append(sites, p.pos(r.Pos())+"\t"+fnName(fn)+" stores the address of its captured variable "+fv.Name())
+						}
+					default:
+						sites = append(sites, p.pos(r.Pos())+"\t"+fnName(fn)+" uses the address of its captured variable "+fv.Name()+" other than to read it")
+					}
+				}
+			}
+		}
+	}
+	if closures == 0 {
+		sites = append(sites, "\tno closure with the signature of executionFunc / gasFunc / memorySizeFunc found (makePush, makeDup, makeSwap, makeLog, makeGasLog ... renamed?)")
+	}
+	return summarize(prop, "table-closures-capture-values", fmt.Sprintf("every closure that can sit in a shared instruction table captures plain values only and never assigns them (%d closures)", closures), sites, n)
 }
